@@ -58,6 +58,11 @@ def decision_table(ctx, name, m, slot_of_pos=None):
     for a in m["arms"]:
         for p in hir.flatten_or(a["pat"]):
             arms.append((p, a))
+    # the kind must be decided by slot PRESENCE alone: a guarded arm makes it depend on a slot's content (seed c11-h: `if !budget.is_empty()` on the
+    # task arm turned `$$ <a --> b>.` into a sentence)
+    guarded = [a.get("line") for a in m["arms"] if a.get("guard")]
+    ctx.ob("K-KIND", "%s: no arm is guarded (the kind depends on which slots are present, not on what they hold)" % name, not guarded,
+           "guarded arm(s) at line(s) %s" % guarded)
     bad = []
     for bits in itertools.product([False, True], repeat=5):
         asg = dict(zip(SLOTS, bits))
@@ -96,6 +101,13 @@ def decision_table(ctx, name, m, slot_of_pos=None):
 
 def run(ctx):
     f = ctx.facts
+    rule_K_KIND(ctx)
+    run_rest(ctx)
+    return EXPL
+
+
+def rule_K_KIND(ctx):
+    f = ctx.facts
     ctx.rule("K-KIND", "result kind as a decision table over the five optional slots, identical in both parsers and equal to the statement: "
              "task <=> budget∧term∧punctuation; sentence <=> term∧punctuation∧¬budget; term <=> term∧¬punctuation; error <=> ¬term")
     tm = maps.enum_parser_fn(ctx, "transform_mid_result")
@@ -125,6 +137,10 @@ def run(ctx):
     ctx.ob("K-KIND", "enum consume_budget fills the slot for an empty budget too", len(hir.find_calls(cb["body"], "insert")) == 1
            and any(hir.callee_name(c) == "new_empty" for c in hir.find_calls(cb["body"])), "")
 
+
+
+def run_rest(ctx):
+    f = ctx.facts
     # whether the budget slot gets filled depends on the bracket borders being char counts: a byte length moves the scan start past a short
     # (empty / one-digit) budget whenever the bracket keyword is non-ASCII, and the task is then classified as a sentence (seeded c15-a)
     maps.rule_U_CHARS(ctx)
@@ -313,6 +329,9 @@ def run(ctx):
     ctx.undecided = ["kind(parse(format(v))) = kind(v) for every value (runs into value-dependent parsing, see C01)"]
     ctx.assumptions = ["Vec::is_empty / matches! semantics of std"]
     ctx.trusted = ["rustc HIR/MIR", "mirfacts driver", "python rule layer"]
-    return ("The two kind-selection matches are evaluated exhaustively over all 32 presence assignments of the five optional slots and compared "
-            "with the property's own truth table; cast and wrapper functions are decoded into variant tables; the must-pass-through rule shows an "
-            "empty budget is always printed with its brackets in both formatters.")
+    return None
+
+
+EXPL = ("The two kind-selection matches are evaluated exhaustively over all 32 presence assignments of the five optional slots and compared "
+        "with the property's own truth table; cast and wrapper functions are decoded into variant tables; the must-pass-through rule shows an "
+        "empty budget is always printed with its brackets in both formatters.")
